@@ -132,6 +132,14 @@ def run(rep, tier):
         states.add((tuple(obs or ()), status))
         if len(exp_recs) < len(stats):
             rep.nontrivial += 1
+        if kind != 'ok':
+            # a deviation is believed only if it shows again when the case is run alone
+            case, line, kind2, exp_recs, exp_status, obs2, status2 = run_case(case)
+            if kind2 == 'ok':
+                rep.outcome('unreproduced-deviation')
+                kind = 'ok'
+            else:
+                kind, obs, status = kind2, obs2, status2
         if kind == 'ok':
             rep.outcome('ok:ran%d-of-%d' % (len(exp_recs), len(stats)))
             rep.traces_validated += 1
